@@ -11,7 +11,7 @@ import (
 func init() {
 	vfRegister(&vfProp{
 		id:       "C02",
-		classes:  []string{"os", "os-alloc", "rs", "rs-alloc", "rs-park", "os-halfclose", "rs-halfclose"},
+		classes:  []string{"os", "os-alloc", "rs", "rs-alloc", "rs-park", "os-halfclose", "rs-halfclose", "os-stall", "rs-stall"},
 		gen:      c02Gen,
 		exec:     c02Exec,
 		maxSteps: 30000,
@@ -30,6 +30,10 @@ func c02Gen(class string, seed uint64, tier string) *vfScenario {
 		sc.Cfg["kind"] = 1
 	case "rs-alloc":
 		sc.Cfg["kind"], sc.Cfg["alloc"] = 1, 1
+	case "os-stall":
+		sc.Cfg["kind"], sc.Cfg["stall"] = 0, 1
+	case "rs-stall":
+		sc.Cfg["kind"], sc.Cfg["stall"] = 1, 1
 	case "rs-park":
 		sc.Cfg["kind"], sc.Cfg["parkdata"] = 1, 1
 		sc.Cfg["alloc"] = int64(rng.IntN(2))
@@ -37,12 +41,24 @@ func c02Gen(class string, seed uint64, tier string) *vfScenario {
 	if class == "os-halfclose" || class == "rs-halfclose" {
 		sc.Cfg["halfclose"] = 1
 	}
+	if sc.Cfg["stall"] != 0 {
+		// back-pressure: some reply writes stall until the scheduler lets them through
+		sc.Cfg["halfclose"] = int64(rng.IntN(2))
+		sc.Cfg["alloc"] = int64(rng.IntN(2))
+		sc.Faults = []vfFault{{K: "stall", At: int64(rng.IntN(12)), A: int64(1 + rng.IntN(4))}}
+	}
 	sc.Cfg["sites"] = int64(1 + rng.IntN(3)) // 1, 2 or 3: never without any site
 	if sc.Cfg["kind"] == 1 {
 		sc.Cfg["hopt"] = int64([]int{0, 1, 1 | 2 | 4, 1 | 128, 1 | 2 | 4 | 128, 8, 16, 32, 64}[rng.IntN(9)])
 	}
 	n := 1 + rng.IntN(40)
 	if rng.IntN(4) == 0 {
+		n = 1 + rng.IntN(6)
+	}
+	if sc.Cfg["stall"] != 0 {
+		// While the controller is held in a stalled write, its bounded queues (capacity 8) must not fill up:
+		// which of its ready select cases it takes when it resumes is Go's coin, and that only stays
+		// unobservable as long as nobody upstream is blocked on those queues.
 		n = 1 + rng.IntN(6)
 	}
 	sc.Ops = vfGenProgram(rng, int(sc.Cfg["kind"]), n)
@@ -84,6 +100,11 @@ func c02CheckReplies(r *vfRun, wc *vfWireClient, complete bool) {
 func c02Exec(r *vfRun) {
 	s := vfStartSession(r, r.sc.Ops)
 	defer s.cleanup()
+	for _, f := range r.sc.Faults {
+		if f.K == "stall" {
+			s.srv.s2c.stallAt, s.srv.s2c.stallLen = int(f.At), int(f.A)
+		}
+	}
 	half := r.sc.cfg("halfclose", 0) != 0
 	s.sim.run(nil)
 	if s.sim.failed() {
